@@ -21,7 +21,7 @@ RULE = ("cases from rng(seed, 3, 0, i): well-posed cluster graphs (1-4 clusters 
 REQ = ["eval:gn-step-applied", "eval:fixed-vertex-zero-increment", "eval:solver-boundary-H", "eval:solver-boundary-rhs", "class:parallel_edges", "class:edge_high_index_first",
        "class:mixed_dimensions", "class:custom_unary", "class:custom_ternary", "class:custom_numeric_jacobian", "class:fix_first_pose=True", "class:fix_first_pose=False",
        "class:several_fixed_per_cluster", "class:landmark_offset_rotated", "class:shared_pose_storage", "class:exact_special_values", "class:second_call_after_edits", "eval:second-call-equals-fresh-graph", "class:fixed_flags_as_int", "class:landmark_offset_zero_translation_rotated", "eval:K-iterations-equal-K-single-steps", "class:information_scales:per_edge",
-       "class:information_scales:all_tiny", "class:graph_with_100+_vertices", "class:evaluated_then_moved_in_place", "class:edges_prebound_to_stale_vertices", "class:start_within_1e-7_of_the_optimum", "class:information_sparse:zero_rows_and_blocks", "class:information_sparse:offdiagonals_cancel_in_sum", "class:second_call_after_a_converged_first_call"]
+       "class:information_scales:all_tiny", "class:graph_with_100+_vertices", "class:evaluated_then_moved_in_place", "class:edges_prebound_to_stale_vertices", "class:start_within_1e-7_of_the_optimum", "class:information_sparse:zero_rows_and_blocks", "class:information_sparse:offdiagonals_cancel_in_sum", "class:second_call_after_a_converged_first_call", "class:edge_retargeted_between_calls"]
 PLAN = {
     "quick": {"cases": 1600, "soft_s": 70, "min_nontrivial": 400, "require": REQ},
     "thorough": {"cases": 60000, "soft_s": 1200, "min_nontrivial": 10000, "require": REQ},
@@ -206,6 +206,32 @@ def second_call_check(ctx, spec, labels, rng, case):
             edits.append("pose written in place")
     now = gen.copy_spec(spec)
     now.pop("share", None)
+    if rng.random() < 0.3:
+        # an odometry edge is re-targeted: it now constrains another vertex of the same type (its public vertex_ids / vertices attributes are updated
+        # consistently); the number of edges, the vertices and the fixed flags stay what they were
+        cands = [(j, e) for j, e in enumerate(g._edges) if type(e) is M.EdgeOdometry and now["edges"][j].get("type") == "odo"]
+        if cands:
+            j, e = cands[int(rng.integers(len(cands)))]
+            kk = M.kind(e.vertices[1].pose)
+            others = [w for w in g._vertices if M.kind(w.pose) == kk and w is not e.vertices[0] and w is not e.vertices[1]]
+            if others:
+                w = others[int(rng.integers(len(others)))]
+                e.vertex_ids = [e.vertex_ids[0], w.id]
+                e.vertices = [e.vertices[0], w]
+                now["edges"][j]["ids"] = [now["edges"][j]["ids"][0], w.id if not isinstance(w.id, np.integer) else int(w.id)]
+                edits.append("edge re-targeted")
+                ctx.count("class:edge_retargeted_between_calls")
+    if rng.random() < 0.3:
+        lms = [(j, e) for j, e in enumerate(g._edges) if isinstance(e, M.EdgeLandmark) and isinstance(getattr(e, "offset", None), M.BasePose) and "off" in now["edges"][j]]
+        if lms:
+            j, e = lms[int(rng.integers(len(lms)))]
+            ko = M.kind(e.offset)
+            new_off = M.fl(M.mkpose(ko, gen.perturb(rng, ko, M.fl(e.offset), 0.2, 0.1)))
+            e.offset[:] = new_off
+            for se, le in zip(now["edges"], g._edges):
+                if isinstance(le, M.EdgeLandmark) and le.offset is e.offset and "off" in se:
+                    se["off"] = list(new_off)
+            edits.append("offset written in place")
     for v, lv in zip(now["vertices"], g._vertices):
         v["pose"] = M.fl(lv.pose)
         v["fixed"] = bool(lv.fixed)
